@@ -88,7 +88,18 @@ where
                 None => Err(OperationError::BacklinkMissing),
             }
         } else {
-            Ok(())
+            // A pruning operation can skip a (removed) prefix of the log but it still needs to
+            // move the log forwards, otherwise an older pruning point would re-enter a log which
+            // was already pruned at a later point.
+            match past_header {
+                Some(past_header) if header.seq_num <= past_header.seq_num => {
+                    Err(OperationError::SeqNumNonIncremental(
+                        past_header.seq_num + 1,
+                        header.seq_num,
+                    ))
+                }
+                _ => Ok(()),
+            }
         }
     } else {
         // Operation is at the beginning of log but we've already progressed and assume a strictly
